@@ -161,6 +161,18 @@ TYPE_BOOLS = {"is_file": "file", "is_dir": "dir", "is_symlink": "symlink", "is_p
               "is_char": "chr", "is_block": "blk", "is_socket": "socket"}
 
 
+# extension classes: filled from the configuration fselect itself writes (see checks that use them)
+EXT_LISTS = {}
+
+
+def load_ext_lists(config_toml_path):
+    import tomllib
+    with open(config_toml_path, "rb") as f:
+        cfg = tomllib.load(f)
+    for k in ("is_archive", "is_audio", "is_book", "is_doc", "is_font", "is_image", "is_source", "is_video"):
+        EXT_LISTS[k] = list(cfg[k])
+
+
 def ext_of(name):
     i = name.rfind(".")
     if i <= 0:
@@ -232,6 +244,13 @@ def col_value(e, col, prefix, tz="UTC"):
         return ("bool", st.st_size == 0)
     if col == "modified":
         return ("date", local_naive(st.st_mtime, tz))
+    if col == "absdir":
+        return ("text", os.path.realpath(os.path.dirname(e.abs)))
+    if col == "abspath":
+        return ("text", os.path.join(os.path.realpath(os.path.dirname(e.abs)), e.name))
+    if col in EXT_LISTS:
+        low = ascii_lower(e.name)
+        return ("bool", any(low.endswith(x) for x in EXT_LISTS[col]))
     raise KeyError(col)
 
 
